@@ -21,6 +21,7 @@ MISTAKES = (
     "nested_recursive_body_fails", "struct_bad_field_type",
     "entry_const_params", "declare_const_params", "struct_methods_override_fields",
     "unsolved_pair", "family_body_fails", "uninferable_call", "maybe_undefined_dead_merge",
+    "comptime_name_suggestion",
 )
 # mistakes that are planted at module level, not inside a function body
 MODULE_LEVEL = ("comptime_raises", "entry_has_args", "non_monomorphic_entry",
@@ -485,6 +486,12 @@ def plant(b: Body, lines: list[str], env: dict, m: dict) -> list[str]:
         ins = [[forms[ch.draw(len(forms), "unsolved_form")]]]
     elif kind == "maybe_undefined_dead_merge":
         ins = [b.dead_jump_merge(env, maybe=True)]
+    elif kind == "comptime_name_suggestion":
+        # a comptime expression that raises NameError while mentioning k+1 defined Python
+        # names equally close to the missing one (the interpreter's "Did you mean" hint
+        # becomes part of the diagnostic)
+        names = [f"ctv_{c}" for c in "abcd"[: k + 1]]
+        ins = [[f"{b.fresh('u')} = comptime({' + '.join(names)} + ctv_z)"]]
     elif kind == "uninferable_call":
         # a generic call checked against a type with inference variables of its own: the
         # note names one of k+1 variables that have no instantiation
@@ -711,6 +718,8 @@ class ProgGen:
                 ["    ints = comptime([7, 8, 9])", "    return ints[0] + i", ""]
             defs.append(f"{prefix}ctl")
             sigs.append(FnSig(f"{prefix}ctl", [("i", "int")], "int", "ctlist"))
+        if mistake and mistake["kind"] == "comptime_name_suggestion":
+            src += [f"ctv_{c} = {j}" for j, c in enumerate("abcd"[: mistake["k"] + 1])] + [""]
         if mistake and mistake["kind"] == "uninferable_call":
             tv = ["A", "B", "C", "D"][: mistake["k"] + 1]
             uv = ["P", "Q", "R", "S"][: mistake["k"] + 1]
